@@ -311,6 +311,35 @@ fn iso_checks<S: Suite>(ctx: &Ctx, pts: &[Pt<S::K>], lams: &[S::K], bound: usize
             },
         );
     }
+    // the representatives that the SSWU map itself EMITS (raw, as emitted - in the exceptional case that is one particular triple
+    // with Z = xi A'): isogeny_map on them equals the affine rational map of the point they denote
+    {
+        let mut us: Vec<S::K> = vec![S::K::zero(), S::K::one(), S::K::one().neg(), S::K::from_u64(2)];
+        if let Some(e) = S::z().inv().and_then(|zi| S::sqrt(&zi.neg())) {
+            us.push(e.neg());
+            us.push(e);
+        }
+        for p in pts.iter().take(ctx.tier.pick(6, 24)) {
+            us.push(pts_x(p));
+        }
+        ctx.sweep(
+            &format!("{}.iso_points.sswu_emitted_representatives", name),
+            us.len() as u64,
+            |i| json!({"u": S::showk(&us[i as usize])}),
+            |i| {
+                let u = &us[i as usize];
+                let mut jp = guard(|| S::lib_sswu(u)).map_err(|m| Fail::new(format!("{}: osswu_map panicked: {}", name, m)))?;
+                let p = S::pt_of(&jp);
+                guard(|| S::lib_iso_map(&mut jp)).map_err(|m| Fail::new(format!("{}: isogeny_map panicked: {}", name, m)))?;
+                let got = S::pt_of(&jp);
+                let want = ref_iso(&tables, &p);
+                if got != want {
+                    return Err(Fail::with(format!("{}: isogeny_map differs from the affine rational map on the representative that osswu_map emits", name), json!({"got": S::show(&got), "want": S::show(&want)})));
+                }
+                Ok(if i < 1 || (4..6).contains(&i) { "SSWU output for an exceptional or special u" } else { "SSWU output" })
+            },
+        );
+    }
     // identity encodings and kernel points map to the identity
     let zero = S::K::zero();
     let mut ids: Vec<(String, S::Proj)> = vec![("(0,1,0)".into(), S::raw(&zero, &S::K::one(), &zero)), ("(0,0,0)".into(), S::raw(&zero, &zero, &zero))];
